@@ -80,6 +80,7 @@ type FuncContract struct {
 	ExitLemmas []*Clause
 	Opaque   bool
 	Reveal   []string
+	AbstractDiv bool
 }
 
 type CallbackContract struct {
@@ -168,6 +169,8 @@ func parseContracts(fset *token.FileSet, f *ast.File, pkgPath string) ([]*FuncCo
 				// except inside functions whose contract says `reveal NAME`
 				cur.Pure = true
 				cur.Opaque = true
+			case "abstractdiv":
+				cur.AbstractDiv = true
 			case "reveal":
 				cur.Reveal = append(cur.Reveal, strings.Fields(rest)...)
 			case "recursive":
